@@ -47,7 +47,7 @@ FLOORS = {'*': {**{f'last:{o}': 5 for o in OUTCOMES}, 'real-cancellation': 5, 'm
                 'client:sync': 200, 'client:async': 200, 'tracers:0': 20, 'tracers:1': 50, 'tracers:2': 50, 'tracers:3': 50,
                 'ctx:supplied': 100, 'ctx:default': 100, 'kind:single': 100, 'kind:batch': 50, 'kind:notification': 30,
                 'attempts>=2': 100, 'concurrent-requests': 100, 'tracer-style:class': 100, 'tracer-style:instance': 100,
-                'tracer-style:mixed': 100, 'raising-tracer': 50, 'tracers-given-as:deque': 50, 'tracers-given-as:dict-values': 50, 'notification-answered-with-a-body:strict': 20, 'notification-answered-with-a-body:non-strict': 20, 'called-while-handling-another-exception': 100}}
+                'tracer-style:mixed': 100, 'tracer-style:equal': 100, 'raising-tracer': 50, 'tracers-given-as:deque': 50, 'tracers-given-as:dict-values': 50, 'notification-answered-with-a-body:strict': 20, 'notification-answered-with-a-body:non-strict': 20, 'called-while-handling-another-exception': 100}}
 
 
 class Abort(BaseException):
@@ -91,8 +91,18 @@ class RecMixed(RecInstance):
         self.log.append((self.idx, 'begin', trace_context, request, None))
 
 
+class RecEqual(Rec):
+    """tracers with value semantics (think of a frozen dataclass holding settings): distinct objects that compare equal"""
+
+    def __eq__(self, other):
+        return isinstance(other, RecEqual)
+
+    def __hash__(self):
+        return 7
+
+
 def make_tracer(style, idx, log):
-    return {'class': Rec, 'instance': RecInstance, 'mixed': RecMixed}[style](idx, log)
+    return {'class': Rec, 'instance': RecInstance, 'mixed': RecMixed, 'equal': RecEqual}[style](idx, log)
 
 
 class _TimeShim:
@@ -175,7 +185,7 @@ def run_case(ctx, n_tracers, attempts, script, kind, supplied_ctx, is_async, ins
              strict=True, notif_body=None):
     ck = 'async' if is_async else 'sync'
     log = []
-    tracers = [make_tracer(tracer_style if i % 2 == 0 else 'class', i, log) for i in range(n_tracers)]
+    tracers = [make_tracer(tracer_style if (i % 2 == 0 or tracer_style == 'equal') else 'class', i, log) for i in range(n_tracers)]
     ctx.hit('tracer-style:' + tracer_style)
     if n_tracers:
         # the library's own LoggingTracer rides along (it records nothing here, it must not disturb the others), and the
@@ -585,7 +595,7 @@ def gen(ctx):
                     yield 'case', dict(n_tracers=(1, 2, 3, 0, 3, 1, 2)[k % 7], attempts=attempts, script=list(script), kind=kind,
                                        supplied_ctx=bool((k // 2) % 2), is_async=is_async,
                                        inside_except=(k % 4 == 0 and 'cancel-task' not in script),
-                                       tracer_style=('class', 'instance', 'class', 'mixed')[(k // 3) % 4], **extra)
+                                       tracer_style=('class', 'instance', 'class', 'mixed', 'equal')[(k // 3) % 5], **extra)
 
 
 NOTIF_BODIES = [None, '', '{"jsonrpc": "2.0", "id": null, "result": 1}', 'garbage', '{"jsonrpc": "2.0", "id": 7, "error": {"code": 1, "message": "m"}}']
